@@ -1,7 +1,9 @@
 #!/bin/bash
 # Sensitivity regression: every seeded change under /verif/seeded must be caught
 # by the quick tier of the check of the property it breaks (exit 1), except
-# those whose meta.json says they do not break the property as stated.
+# those whose meta.json says they do not break the property as stated
+# (`check_with` names the property whose check is run when the change turned out
+# to break a different property than the one the sub-agent was given).
 #   selftest/mutants.sh [name-filter]
 cd "$(dirname "$0")/.."
 if ! git -C /repo diff --quiet; then echo "/repo has uncommitted changes; refusing"; exit 2; fi
@@ -12,7 +14,7 @@ trap 'git -C /repo checkout -- . ; rm -rf "$SCRATCH"; VERIF_DIR= ./check build >
 caught=0; missed=0; total=0
 for d in seeded/*${1:-}*/; do
   name=$(basename "$d")
-  prop=$(python3 -c "import json;print(json.load(open('$d/meta.json'))['breaks_property'])")
+  prop=$(python3 -c "import json;m=json.load(open('$d/meta.json'));print(m.get('check_with') or m['breaks_property'])")
   exempt=$(python3 -c "import json;print('yes' if 'does not break' in json.load(open('$d/meta.json'))['result'] else 'no')")
   git -C /repo apply "$PWD/$d/patch.diff" || { echo "$name: patch does not apply"; missed=$((missed+1)); continue; }
   if ! ./check build >/dev/null 2>&1; then echo "$name: BUILD FAILED"; git -C /repo checkout -- .; missed=$((missed+1)); continue; fi
